@@ -169,22 +169,33 @@ def c06(ctx):
     if ctx.replay:
         return do_replay(ctx)
     if ctx.quick:
-        jobs = hist_jobs(ctx, "c06", 48, 1000) + hist_jobs(ctx, "c06", 8, 600, flavour="asan", first=1000, per_proc=1)
+        jobs = hist_jobs(ctx, "c06", 48, 1000) + hist_jobs(ctx, "c06", 8, 600, flavour="asan", first=1000, per_proc=1) + \
+            conc_jobs(ctx, 8, 40, native=0, variant=[0, 1], first=300000, tag="c06") + enum_jobs(ctx, 300, 4, 1, 1, tag="c06")
     else:
         jobs = hist_jobs(ctx, "c06", 1000, 2500, per_proc=16) + \
-            hist_jobs(ctx, "c06", 160, 1200, flavour="asan", first=100000, per_proc=8)
+            hist_jobs(ctx, "c06", 160, 1200, flavour="asan", first=100000, per_proc=8) + \
+            conc_jobs(ctx, 32, 300, native=0, variant=[0, 1], first=300000, tag="c06") + \
+            conc_jobs(ctx, 8, 100, native=1, variant=[0, 1], first=3000000, tag="c06n") + enum_jobs(ctx, 300, 4, 2, 16, tag="c06")
     agg = Agg().add(runner.run_jobs(jobs))
     extras = hist_common_extras(agg)
-    extras.update(snapshots_taken=agg.n("snapshots_taken"), snapshot_revalidations=agg.n("snapshot_revalidations"))
+    extras.update(snapshots_taken=agg.n("snapshots_taken"), snapshot_revalidations=agg.n("snapshot_revalidations"),
+                  concurrent_part=dict(schedules=agg.n("schedules"),
+                                       snapshot_views_checked_as_consistent_cuts=agg.n("views_checked"),
+                                       snapshot_views_reread_before_release=agg.n("snapshot_views_reread_before_release"),
+                                       views_overlapping_a_write=agg.n("views_overlapping_a_write"),
+                                       systematic_enumeration=enum_extras(agg)))
     return runner.finish(
         "C06", "exploration", ctx.tier, ctx.seed, ctx.t0, agg,
         rule="histories with 0..12 simultaneously live snapshots; after every flush/compaction/periodically every "
              "live snapshot is re-read completely (all keys + forward and backward scan) against the model frozen at "
              "its version; distinct = (number of live snapshots, oldest/middle/newest, triggering structural op) states "
-             "validated",
+             "validated; concurrent part (serialising scheduler, writers committing while readers hold snapshots): every "
+             "snapshot is read by get, by an iterator and by get again before its release and must not move, and must be "
+             "a consistent cut of the writers' batches",
         evaluations=agg.n("snapshot_revalidations"), distinct_nontrivial=agg.d("c06_state"), extras=extras,
         floors=dict(histories=(agg.n("cases"), 8), revalidations=(agg.n("snapshot_revalidations"), 200),
-                    snapshot_reads=(agg.n("gets_snapshot"), 5000), compactions=(agg.n("log_compactions"), 5)),
+                    snapshot_reads=(agg.n("gets_snapshot"), 5000), compactions=(agg.n("log_compactions"), 5),
+                    concurrent_rereads=(agg.n("snapshot_views_reread_before_release"), 100)),
         assumptions=["model freeze point = model version when ldb_snapshot returned (single writer thread)"])
 
 
@@ -535,11 +546,11 @@ def c08(ctx):
     if ctx.quick:
         jobs = conc_jobs(ctx, 16, 100, native=0, variant=[0, 0, 1, 0, 2, 0, 4, 5], tag="c08") + \
             conc_jobs(ctx, 4, 25, native=1, variant=[0, 1], first=100000, tag="c08n") + \
-            enum_jobs(ctx, 0, 6, 1, 1, tag="c08") + enum_jobs(ctx, 6, 3, 2, 8, tag="c08")
+            enum_jobs(ctx, 0, 6, 1, 1, tag="c08") + enum_jobs(ctx, 6, 1, 2, 8, tag="c08")
     else:
         jobs = conc_jobs(ctx, 64, 600, native=0, variant=[0, 0, 1, 0, 2, 3, 4, 5], tag="c08") + \
             conc_jobs(ctx, 16, 150, native=1, variant=[0, 1, 2], first=1000000, tag="c08n") + \
-            enum_jobs(ctx, 0, 12, 2, 16, tag="c08")
+            enum_jobs(ctx, 0, 8, 2, 16, tag="c08")
     agg = Agg().add(runner.run_jobs(jobs))
     return runner.finish(
         "C08", "exploration", ctx.tier, ctx.seed, ctx.t0, agg,
@@ -564,10 +575,10 @@ def c09(ctx):
         return do_replay(ctx)
     if ctx.quick:
         jobs = conc_jobs(ctx, 16, 100, native=0, variant=[2, 3, 4, 5, 6, 1, 0, 2], first=50000, tag="c09") + \
-            enum_jobs(ctx, 100, 6, 1, 1, tag="c09") + enum_jobs(ctx, 106, 3, 2, 8, tag="c09")
+            enum_jobs(ctx, 100, 6, 1, 1, tag="c09") + enum_jobs(ctx, 106, 1, 2, 8, tag="c09")
     else:
         jobs = conc_jobs(ctx, 64, 800, native=0, variant=[2, 3, 4, 5, 6, 1, 0, 2], first=50000, tag="c09") + \
-            enum_jobs(ctx, 100, 12, 2, 16, tag="c09")
+            enum_jobs(ctx, 100, 8, 2, 16, tag="c09")
     agg = Agg().add(runner.run_jobs(jobs))
     return runner.finish(
         "C09", "exploration", ctx.tier, ctx.seed, ctx.t0, agg,
@@ -597,7 +608,7 @@ def c04(ctx):
         jobs = crash_jobs(ctx, "c04", 64, 150, 0, 2, 16) + \
             conc_jobs(ctx, 32, 600, native=0, variant=[0, 1], first=200000, tag="c04") + \
             conc_jobs(ctx, 8, 150, native=1, variant=[0, 1], first=2000000, tag="c04n") + \
-            enum_jobs(ctx, 200, 6, 2, 16, tag="c04")
+            enum_jobs(ctx, 200, 4, 2, 16, tag="c04")
     agg = Agg().add(runner.run_jobs(jobs))
     extras = crash_extras(agg)
     extras.update(conc_extras(agg))
